@@ -5,7 +5,7 @@ import random, json, sys
 from ..harness import impl, coq
 
 pid = 'C15'
-gen_modules = ['tr_testing', 'tr_validators', 'tr_contracts']
+gen_modules = ['tr_testing', 'tr_validators', 'tr_contracts', 'tr_rest_validators', 'tr_rest_testing']
 model_targets = ['Gen/Testing.v']
 hand_modelled = ['hypothesis (strategies, seeds, the number of examples) is an oracle: the theorems start from the candidates it hands over']
 explanation = ('Theorems on TestCase.__call__ and the wrapper of deal.cases regenerated from deal/_testing.py: a candidate becomes a test case iff every precondition accepts it; '
@@ -66,6 +66,13 @@ def probe(seed, n):
                 stats["unsatisfiable"] = stats.get("unsatisfiable", 0) + 1; continue      # the generated preconditions exclude (almost) every input: hypothesis says so
             bad.append(["cases() raised", src, repr(e)]); continue
         if c1 != c2: bad.append(["same seed, different cases", src, str(c1[:3]), str(c2[:3])])
+        # one deal.cases object iterated twice: the same cases again, never more than requested
+        obj = deal.cases(f, count=count, seed=s, kwargs=dict(fixed), check_types=False)
+        try:
+            i1 = [(c.args, tuple(sorted(c.kwargs.items()))) for c in obj]; i2 = [(c.args, tuple(sorted(c.kwargs.items()))) for c in obj]
+            if i1 != i2 or len(i2) > count: bad.append(["iterating one deal.cases object twice gives different / more cases", src, len(i1), len(i2), count])
+        except BaseException as e:
+            if type(e).__name__ not in ("Unsatisfiable", "FailedHealthCheck"): bad.append(["iterating cases raised", src, repr(e)])
         if len(c1) > count: bad.append(["more cases than requested", src, len(c1), count])
         rawpres = [eval(p) for p, _ in pres]
         failing = []
